@@ -132,6 +132,10 @@ type World struct {
 	// RootDPFail makes that many leading CRL distribution points of the root fail (alternately with a download
 	// error and with a body that is not a CRL); as long as a later one works the Root CA CRL is obtainable.
 	RootDPFail int
+	// RootDPSpec gives single CRL distribution points of the root (by position) a list of their own, or (Response set)
+	// an answer of their own; the others serve RootCrl.
+	RootDPSpec map[int]*CRLSpec
+	RootDPResp map[int]Response
 	// CRLIssuerUTF8: the CRLs spell their issuer's name with UTF8String attribute values (as Intel's do) while the
 	// certificates made by the standard library use PrintableString: the same name in other bytes.
 	CRLIssuerUTF8 bool
@@ -351,6 +355,10 @@ func (w *World) BuildCollateral() {
 	rootNoNumber := mk(w.PKI.Root, rootCrl, true)
 	for i, u := range w.PKI.Root.X.CRLDistributionPoints {
 		switch {
+		case w.RootDPSpec[i] != nil:
+			w.Resp[u] = Response{Body: mk(w.PKI.Root, *w.RootDPSpec[i], false)}
+		case hasResp(w.RootDPResp, i):
+			w.Resp[u] = w.RootDPResp[i]
 		case w.CRLNoNumber&2 != 0 && i == w.RootDPFail && i < len(w.PKI.Root.X.CRLDistributionPoints):
 			w.Resp[u] = Response{Body: rootNoNumber}
 		case i < w.RootDPFail && i < len(w.PKI.Root.X.CRLDistributionPoints)-1 && i%2 == 0:
@@ -361,6 +369,11 @@ func (w *World) BuildCollateral() {
 			w.Resp[u] = Response{Body: root}
 		}
 	}
+}
+
+func hasResp(m map[int]Response, i int) bool {
+	_, ok := m[i]
+	return ok
 }
 
 // Build signs the quote and builds all collateral.
